@@ -30,22 +30,22 @@ InFamily(e) == "DataParseError" \in Mro(e) \/ ("ValueError" \in Mro(e) /\ e.site
 \* the token sequence as far as declarations are concerned (two repetitions of a pumped token
 \* interrupt a declaration exactly as k of them do)
 EffToks(e) == IF e.k > 0 THEN Pump(e.toks, e.at, e.ptok, 2) ELSE e.toks
-DeclNtax(e)  == IF e.fam = "nexus" THEN Declared(EffToks(e), "NTAX")
-                ELSE IF e.fam = "phylip" THEN PhylipDeclared(EffToks(e))[1] ELSE -1
-DeclNchar(e) == IF e.fam = "nexus" THEN Declared(EffToks(e), "NCHAR")
-                ELSE IF e.fam = "phylip" THEN PhylipDeclared(EffToks(e))[2] ELSE -1
+DeclNtax(e, k)  == IF e.fam = "nexus" THEN DeclaredFor(EffToks(e), k, Len(e.mats), "NTAX")
+                   ELSE IF e.fam = "phylip" THEN PhylipDeclared(EffToks(e))[1] ELSE -1
+DeclNchar(e, k) == IF e.fam = "nexus" THEN DeclaredFor(EffToks(e), k, Len(e.mats), "NCHAR")
+                   ELSE IF e.fam = "phylip" THEN PhylipDeclared(EffToks(e))[2] ELSE -1
 Layout(e) == e.fam \o (IF (e.fam = "nexus" /\ "INTERLEAVE" \in SeqToSet(e.toks)) \/ (e.fam = "phylip" /\ e.inter)
                        THEN "/interleaved" ELSE "")
-RowsBad(e, m) == DeclNtax(e) >= 0 /\ Len(m.rows) # DeclNtax(e)
-ColsBad(e, m) == DeclNchar(e) >= 0 /\ \E i \in 1..Len(m.rows) : m.rows[i] # DeclNchar(e)
+RowsBad(e, k) == DeclNtax(e, k) >= 0 /\ Len(e.mats[k].rows) # DeclNtax(e, k)
+ColsBad(e, k) == DeclNchar(e, k) >= 0 /\ \E i \in 1..Len(e.mats[k].rows) : e.mats[k].rows[i] # DeclNchar(e, k)
 
 JudgeOk(e) ==
     LET badTrees == {i \in 1..Len(e.trees) : WFClause(e.trees[i]) # "ok"}
         wf == IF badTrees = {} THEN None
               ELSE V("C20.ResultWellFormed", WFClause(e.trees[Min(badTrees)]) \o "@" \o e.entry \o "/" \o e.fam)
-        rows == IF \E i \in 1..Len(e.mats) : RowsBad(e, e.mats[i])
+        rows == IF \E i \in 1..Len(e.mats) : RowsBad(e, i)
                 THEN V("C20.DimsConsistent", Layout(e) \o ":rows") ELSE None
-        cols == IF \E i \in 1..Len(e.mats) : ColsBad(e, e.mats[i])
+        cols == IF \E i \in 1..Len(e.mats) : ColsBad(e, i)
                 THEN V("C20.DimsConsistent", Layout(e) \o ":cols") ELSE None
     IN wf \o rows \o cols
 
